@@ -411,6 +411,9 @@ struct Case {
     class: &'static str,
     /// offset to resolve with when there is no unperturbed real value
     hint: Option<i32>,
+    /// class derived-leap-plus-one: the leap-second value the fields were derived from, the timestamp
+    /// field being that of the FOLLOWING second (the documented allowance)
+    plus_one: Option<(NaiveDateTime, i32)>,
 }
 
 fn run_case(c: &mut Ctx, case: &Case, offs: &[i32]) {
@@ -752,6 +755,34 @@ fn run_case(c: &mut Ctx, case: &Case, offs: &[i32]) {
                 c.count(if suff { "complete:tz:sufficient" } else { "complete:tz:insufficient" });
                 if sw != want {
                     c.fail("derived zone-aware fields (to_datetime_with_timezone, fixed zone): wrong resolution", &format!("[{}] real {} tz {} -> {} (expected {})", dump, l, z, sw, want));
+                }
+            }
+        }
+    }
+    // ---- a leap-second value with the timestamp of the FOLLOWING second (theorems datetime_sound_fields for the
+    // field path, datetime_complete_timestamp_leap for the fall-back path, to_datetime_complete_*) ----
+    if let Some((l, off)) = case.plus_one {
+        let m = &case.mask;
+        let gy = group(m, YEAR, l.date().year() as i64);
+        let gi = group(m, IYEAR, l.date().iso_week().year() as i64);
+        let det = |g: Grp| g == Grp::Determinate || g == Grp::Empty;
+        if det(gy) && det(gi) {
+            let fields_path = date_sufficient(m, gy, gi) && time_sufficient(m);
+            // on the fall-back path the following second must itself be a representable local date-time
+            let next_ok = l.and_utc().timestamp() + 1 <= MAX_TS;
+            let r = guard(|| p.to_naive_datetime_with_offset(off));
+            let s = show(r, sdt);
+            let want = if fields_path || next_ok { format!("ok {}", sdt(&l)) } else { "err OutOfRange".to_string() };
+            c.count(if fields_path { "complete:leap-plus-one:fields" } else { "complete:leap-plus-one:via-timestamp" });
+            if s != want {
+                c.fail("leap second with the timestamp of the following second: wrong resolution", &format!("[{}] real {} off {} -> {} (expected {})", dump, l, off, s, want));
+            }
+            if (fields_path || next_ok) && (m[OFF] || off == 0) {
+                let u = l.checked_sub_offset(FixedOffset::east_opt(off).unwrap()).unwrap();
+                let want = format!("ok {} {}", sdt(&u), off);
+                c.count("complete:leap-plus-one:datetime");
+                if szs != want {
+                    c.fail("leap second with the timestamp of the following second (to_datetime): wrong resolution", &format!("[{}] real {} off {} -> {} (expected {})", dump, l, off, szs, want));
                 }
             }
         }
@@ -1388,13 +1419,13 @@ pub fn run(c: &mut Ctx) {
                 .clamp(tlo, thi);
                 f[i] = Some(nv);
                 let unchanged = old == Some(nv) || (i == WDAY && old.map(|v| v.rem_euclid(7)) == Some(nv.rem_euclid(7)));
-                Case { f, real: None, mask, class: if unchanged { "derived-same" } else { "perturbed" }, hint: if c.rng.chance(1, 2) { Some(off) } else { None } }
+                Case { f, real: None, mask, class: if unchanged { "derived-same" } else { "perturbed" }, hint: if c.rng.chance(1, 2) { Some(off) } else { None }, plus_one: None }
             } else if l.time().nanosecond() >= 1_000_000_000 && f[TS].is_some() && c.rng.chance(1, 2) {
                 // a leap second may also carry the timestamp of the following second
                 f[TS] = f[TS].map(|v| v + 1);
-                Case { f, real: None, mask, class: "derived-leap-plus-one", hint: Some(off) }
+                Case { f, real: None, mask, class: "derived-leap-plus-one", hint: Some(off), plus_one: Some((l, off)) }
             } else {
-                Case { f, real: Some((l, off)), mask, class: "derived", hint: None }
+                Case { f, real: Some((l, off)), mask, class: "derived", hint: None, plus_one: None }
             }
         } else {
             // ---- independent random values ----
@@ -1421,7 +1452,7 @@ pub fn run(c: &mut Ctx) {
                     });
                 }
             }
-            Case { f, real: None, mask: m, class: if directed { "random-small" } else { "random" }, hint: None }
+            Case { f, real: None, mask: m, class: if directed { "random-small" } else { "random" }, hint: None, plus_one: None }
         };
         c.count(&format!("fields:{:02}", case.f.iter().filter(|x| x.is_some()).count()));
         let offs = offsets_for(c, case.real.map(|r| r.1).or(case.hint));
@@ -1463,7 +1494,7 @@ pub fn run(c: &mut Ctx) {
             // an offset field next to the zone's offset: run_case resolves in the zone `hint`
             f[OFF] = Some(off as i64 + *c.rng.pick(&[1i64, -1, 3600, 0]));
         }
-        let case = Case { f, real: None, mask: m, class: "zone-stage", hint: Some(hint) };
+        let case = Case { f, real: None, mask: m, class: "zone-stage", hint: Some(hint), plus_one: None };
         run_case(c, &case, &[off]);
     }
 
